@@ -175,6 +175,41 @@ var c11Families = []c11Family{
 		state0: func(par int) int64 { return 0 },
 	},
 	{
+		// reads only: no assignment, no local, no ++/--, no function - the
+		// kind of script an engine might be tempted to run without its lock
+		name: "read-only-foreach",
+		script: func(tag string, par int) string {
+			return fmt.Sprintf("foreach x in Items { if (x == B) { return true; } } foreach ch in S { if (ch == \"z\") { return true; } } return A > %d;", 1+par%3)
+		},
+		init: func(e *evalfilter.Eval, par int) {},
+		step: func(s int64, o *Obj, par int) (int64, bool, []int64) {
+			for _, v := range o.Items {
+				if v == o.B {
+					return s, true, nil
+				}
+			}
+			return s, strings.Contains(o.S, "z") || o.A > 1+par%3, nil
+		},
+		state0: func(par int) int64 { return 0 },
+	},
+	{
+		name: "read-only-expression",
+		script: func(tag string, par int) string {
+			return fmt.Sprintf("return (A > %d && len(S) > 1) || B in Items || S == \"ab\";", par%3)
+		},
+		init: func(e *evalfilter.Eval, par int) {},
+		step: func(s int64, o *Obj, par int) (int64, bool, []int64) {
+			in := false
+			for _, v := range o.Items {
+				if v == o.B {
+					in = true
+				}
+			}
+			return s, (o.A > par%3 && len([]rune(o.S)) > 1) || in || o.S == "ab", nil
+		},
+		state0: func(par int) int64 { return 0 },
+	},
+	{
 		// a pattern that does not compile (a user's typo): the failure path of
 		// whatever the library shares between evaluators for regular expressions
 		name:   "predicate-invalid-regexp",
